@@ -6,7 +6,7 @@ CONSTANTS
   Disk = TRUE
   WithCrash = TRUE
   Export = FALSE
-INVARIANTS TypeOK Atomic LockOK NoResidue LiveKept CrashSafe OnlyAccepted
-PROPERTIES Monotone FailKeeps SwapLocked
+INVARIANTS TypeOK Atomic LockOK NoResidue NoResidueClosed LiveKept CrashSafe OnlyAccepted
+PROPERTIES Monotone FailKeeps SwapLocked ClosedStaysClosed
 CHECK_DEADLOCK FALSE
 VIEW View
